@@ -372,11 +372,14 @@ pub struct World<'a> {
     bytes_cache: HashMap<String, Vec<u8>>,
     /// target files served under the targets base URL in every cycle: (file name, content)
     pub target_files: Vec<(String, Vec<u8>)>,
+    /// every target entry carries `custom` data and every timestamp / snapshot / targets document a
+    /// second, structured unknown top-level member (C17)
+    pub rich: bool,
 }
 
 impl<'a> World<'a> {
     pub fn new(pool: &'a KeyPool, names: Names) -> Self {
-        World { pool: pool.all(), names, base: chrono::Utc::now(), digests: HashMap::new(), invented: HashMap::new(), bytes_cache: HashMap::new(), target_files: Vec::new() }
+        World { pool: pool.all(), names, base: chrono::Utc::now(), digests: HashMap::new(), invented: HashMap::new(), bytes_cache: HashMap::new(), target_files: Vec::new(), rich: false }
     }
 
     /// The identity of a real digest. Ids >= 1000 are handed out for real file contents.
@@ -437,6 +440,7 @@ impl<'a> World<'a> {
         let sm = t.snap.as_ref().map(|m| self.meta_json(m));
         let mut v = meta::timestamp_json(t.version, &self.t(t.expires), sm);
         v["x-msg"] = json!(t.msg);
+        if self.rich { v["x-extra"] = json!({"of": "timestamp", "list": [1, {"deep": null}], "text": "é"}); }
         self.sign(&v, &t.sigs)
     }
 
@@ -452,6 +456,7 @@ impl<'a> World<'a> {
         }
         let mut v = meta::snapshot_json(s.version, &self.t(s.expires), m);
         v["x-msg"] = json!(s.msg);
+        if self.rich { v["x-extra"] = json!({"of": "snapshot", "list": [2, {"deep": null}], "text": "ü"}); }
         self.sign(&v, &s.sigs)
     }
 
@@ -459,7 +464,9 @@ impl<'a> World<'a> {
         let mut tg = Map::new();
         for (n, l, h) in &t.entries {
             let d = self.digest_bytes(*h);
-            tg.insert(self.names.targets[*n].clone(), meta::target_entry(*l, &d));
+            let mut e = meta::target_entry(*l, &d);
+            if self.rich { e["custom"] = json!({"for": self.names.targets[*n], "n": [*n, *l], "nested": {"k": true}}); }
+            tg.insert(self.names.targets[*n].clone(), e);
         }
         let deleg = t.deleg.as_ref().map(|d| {
             json!({"keys": meta::key_table(&self.keys(&d.table)),
@@ -471,6 +478,7 @@ impl<'a> World<'a> {
         });
         let mut v = meta::targets_json(t.version, &self.t(t.expires), tg, deleg);
         v["x-msg"] = json!(t.msg);
+        if self.rich { v["x-extra"] = json!({"of": "targets", "version": t.version, "list": [3, {"deep": null}]}); }
         self.sign(&v, &t.sigs)
     }
 
